@@ -3,7 +3,8 @@ C12 — data-loader results do not depend on what was read before.
 
 Model: `Loader.read` (FeVerif/Model/Loader.lean) is `DataLoader._read` of
 python/fusion_engine_client/analysis/data_loader.py with its cache `self.data`; `Variant.current`
-is the code as it is (after the repairs aa1fd47, de0a08a, f5bc4ad, c531000, 1299cac), `Variant.legacy`
+is the code as it is (after the repairs aa1fd47, de0a08a, f5bc4ad, c531000, 1299cac and the sixth one,
+positive `max_messages` no longer cutting the index), `Variant.legacy`
 the code before them.  The log reader, the registry and the log are parameters (`Reader`, `Reg`,
 `List Entry`), universally quantified below.  The model is tied to the source by the correspondence
 harness tools/props/c12.py (call histories on one real `DataLoader` vs. `Loader.runHist`).
@@ -69,10 +70,15 @@ theorem C12_every_call_as_fresh (reg : Reg) (hd : reg.Disjoint) (rd : Reader) (l
 the reader yields under the same filters (time range, types, source ids, `require_*`), cut to the first N
 (N ≥ 0) or last |N| (N < 0) across all requested types in file order; in exact file order in one
 `MessageData` for `return_in_order`; otherwise grouped by requested type and then time-aligned and
-converted as the call asks.  Hypotheses: every source id the reader's time selection contains was
-discovered by the reader (C10), and the requested types are registered. -/
+converted as the call asks.  This includes logs with source identifiers the reader did not discover when
+it sampled the available ones (the default of `source_ids` is the sampled set, tested when a message is
+read).  Hypotheses: the requested types are registered; and, for a *negative* maximum only (last N: the
+index is cut to its last |N| entries before the source identifier is tested, open finding
+`C12/max-messages-before-source-filter:undiscovered-source-id:last-n`, see
+`C12_last_n_undiscovered_source_open`), every source id the reader's time selection contains was
+discovered by the reader (C10). -/
 theorem C12_read_fresh_spec (reg : Reg) (hd : reg.Disjoint) (rd : Reader) (log : List Entry) (a : Args)
-    (hs : ∀ x ∈ rd.timeSel a.timeRange log, x.src ∈ rd.available log)
+    (hs : ∀ n, a.maxMessages = some n → n < 0 → ∀ x ∈ rd.timeSel a.timeRange log, x.src ∈ rd.available log)
     (hk : ∀ t ∈ (eff reg rd log a).types, reg.known t = true) :
     readFresh Variant.current reg rd log a = .ok (freshSpec reg rd log a) := by
   obtain ⟨c', h1, _⟩ := read_current hd rd log Cache.empty a (Inv_empty reg rd log)
@@ -81,7 +87,7 @@ theorem C12_read_fresh_spec (reg : Reg) (hd : reg.Disjoint) (rd : Reader) (log :
 /-- First N / last N, spelled out for `return_in_order`: the messages returned are
 `(specStream …).take N` resp. the last `|N|` elements of it, in file order. -/
 theorem C12_in_order_first_last (reg : Reg) (hd : reg.Disjoint) (rd : Reader) (log : List Entry) (a : Args)
-    (hs : ∀ x ∈ rd.timeSel a.timeRange log, x.src ∈ rd.available log)
+    (hs : ∀ n, a.maxMessages = some n → n < 0 → ∀ x ∈ rd.timeSel a.timeRange log, x.src ∈ rd.available log)
     (hk : ∀ t ∈ (eff reg rd log a).types, reg.known t = true) (hio : a.inOrder = true) (n : Int)
     (hn : a.maxMessages = some n) :
     ∃ d, readFresh Variant.current reg rd log a = .ok (Result.ordered d) ∧
@@ -210,6 +216,39 @@ theorem C12_unrepaired_fresh_max_fails :
     msgsOf (some (readFresh Variant.current reg rd log { call [P, E] with requireSys := true, maxMessages := some (-2) }))
         = [(P, []), (E, [5, 8])] := by
   refine ⟨by decide, by decide, by decide, by decide⟩
+
+/-! ### Source identifiers the reader did not discover
+
+The same log read through a reader that sampled only source 0 (`available = [0]`): source 1 (ordinals 2
+and 7) is in the log but not in the default of `source_ids`. -/
+
+namespace C12W
+def rdLate : Reader := { timeSel := fun _ l => l, dropsUntimed := false, available := fun _ => [0], keepsUnavailable := true }
+end C12W
+
+open C12W in
+/-- The sixth repair: `read([Pose, Event], max_messages=3)` with default `source_ids` cut the index to its
+first three entries (0, 1, 2) and then rejected ordinal 2 (source 1) when it was read: 2 messages where 3
+match.  Since the repair the counter ends the read after three messages that were returned. -/
+theorem C12_unrepaired_first_n_undiscovered_source_fails :
+    msgsOf (some (readFresh { Variant.current with sliceNonPos := false } reg rdLate log { call [P, E] with maxMessages := some 3 }))
+        = [(P, [1]), (E, [0])] ∧
+    msgsOf (some (readFresh Variant.current reg rdLate log { call [P, E] with maxMessages := some 3 }))
+        = [(P, [1]), (E, [0, 5])] ∧
+    msgsOf (some (.ok (freshSpec reg rdLate log { call [P, E] with maxMessages := some 3 })))
+        = [(P, [1]), (E, [0, 5])] := by
+  refine ⟨by decide, by decide, by decide⟩
+
+open C12W in
+/-- Open finding (why `C12_read_fresh_spec` keeps its hypothesis for negative N): the last two messages of
+`[GNSSInfo, Event]` from the default sources are ordinals 5 and 8; the code cuts the index to its last two
+entries (7, 8) first, rejects 7 (source 1) when it is read, and returns ordinal 8 alone. -/
+theorem C12_last_n_undiscovered_source_open :
+    msgsOf (some (readFresh Variant.current reg rdLate log { call [G, E] with maxMessages := some (-2) }))
+        = [(G, []), (E, [8])] ∧
+    msgsOf (some (.ok (freshSpec reg rdLate log { call [G, E] with maxMessages := some (-2) })))
+        = [(G, []), (E, [5, 8])] := by
+  refine ⟨by decide, by decide⟩
 
 /-! ### Non-vacuity: the hypotheses hold for the concrete registry / reader / log above and the
 theorems speak about non-trivial values (executable checks, not theorems). -/
